@@ -21,9 +21,9 @@ ASSUMPTIONS = [
     "wrappers are only placed where typing accepts them at runtime; names are unique per run (the same-unqualified-name-in-two-modules scenario belongs to C12)",
     "at the class-field position the two classes differ by construction, so the field values are compared",
 ]
-PLAN = {"quick": dict(cases=2600, inputs=14), "thorough": dict(cases=60000, inputs=30)}
-FLOORS = {"quick": {"qualified_expression_refs": 60, "pairs_compared": 50000, "chain_position_combos": 120, "string_ref_calls": 5000, "builds": 2200, "codec_pairs_compared": 9000, "bytes_like_pairs_compared": 5000, "bytes_chain_combos": 40},
-          "thorough": {"qualified_expression_refs": 1500, "pairs_compared": 2000000, "chain_position_combos": 300, "string_ref_calls": 200000, "builds": 50000, "codec_pairs_compared": 350000, "bytes_like_pairs_compared": 100000, "bytes_chain_combos": 80}}
+PLAN = {"quick": dict(cases=2750, inputs=14), "thorough": dict(cases=60000, inputs=30)}
+FLOORS = {"quick": {"qualified_expression_refs": 60, "pairs_compared": 50000, "chain_position_combos": 120, "string_ref_calls": 5000, "builds": 2200, "codec_pairs_compared": 9000, "bytes_like_pairs_compared": 5000, "bytes_chain_combos": 40, "twin_text_cases": 60},
+          "thorough": {"qualified_expression_refs": 1500, "pairs_compared": 2000000, "chain_position_combos": 300, "string_ref_calls": 200000, "builds": 50000, "codec_pairs_compared": 350000, "bytes_like_pairs_compared": 100000, "bytes_chain_combos": 80, "twin_text_cases": 1500}}
 
 NAMED = ["newtype", "alias", "stralias"]
 POSITIONS = ["root", "coll", "mapval", "tuple", "union", "union_sibling", "field", "pair", "pair"]
@@ -142,11 +142,95 @@ def bytes_case(sh, rng):
         prog.drop()
 
 
+TWIN_LEAVES = {"int": ["1", 2.0, "-7", 5], "str": [1, 2.5, "x"], "float": ["1.5", 2], "decimal.Decimal": ["1.50", 3], "datetime.date": ["2020-01-02"],
+               "uuid.UUID": ["12345678-1234-5678-1234-567812345678"], "bool": ["true", 0, "no"], "bytes": ["abc", b"xy"]}
+TWIN_TEXTS = ["Item", "list[Item]", "dict[str, Item]", "typing.Optional[Item]", "tuple[Item, Item]", "tuple[Item, ...]", "Row", "list[Row]"]
+
+
+def twin_text_case(sh, rng):
+    """Two (or three) modules each bind `Item` to ANOTHER type and define a string-valued alias with the SAME text (`"list[Item]"`): the
+    text of each alias means what it means in the alias's own module, whichever module's alias was used first. Every alias is compared
+    with the plain type its text evaluates to in its module, on the inputs of all the modules' leaf types."""
+    import sys
+    import types
+
+    text = rng.choice(TWIN_TEXTS)
+    leaves = rng.sample(sorted(TWIN_LEAVES), rng.choice([2, 2, 3]))
+    how = rng.choice(["direct", "direct", "through-newtype", "through-alias", "field", "list-member"])
+    mods = []
+    try:
+        for j, leaf in enumerate(leaves):
+            name = f"vtwin_{rng.randrange(16**8):08x}_{j}"
+            mod = types.ModuleType(name)
+            mod.__file__ = f"/verif/out/generated/{name}.py"
+            sys.modules[name] = mod
+            src = ("import dataclasses, datetime, decimal, typing, uuid\n"
+                   f"Item = {leaf}\n@dataclasses.dataclass\nclass Row:\n    v: {leaf}\n"
+                   f"Items = typing.TypeAliasType('Items', {text!r})\nPlain = {text}\n"
+                   "NItems = typing.NewType('NItems', Items)\nAItems = typing.TypeAliasType('AItems', Items)\n"
+                   "@dataclasses.dataclass\nclass HoldW:\n    f: Items\n@dataclasses.dataclass\nclass HoldT:\n    f: Plain\n")
+            exec(compile(src, mod.__file__, "exec", dont_inherit=True), mod.__dict__)
+            mods.append((mod, leaf, src))
+        pool = [w for leaf in leaves for w in TWIN_LEAVES[leaf]]
+
+        def shape(x):
+            x2 = rng.choice(pool)
+            if "Row" in text:
+                x, x2 = {"v": x}, {"v": x2}
+            if text.startswith("list[") or text.endswith("...]"):
+                return [x, x2]
+            if text.startswith("dict["):
+                return {"k": x, "j": x2}
+            if text.startswith("tuple["):
+                return [x, x2]
+            return x
+
+        order = list(mods)
+        rng.shuffle(order)
+        sh.count("twin_text_cases")
+        sh.see("twin_text_combos", f"{text}:{how}")
+        for mod, leaf, src in order:
+            if how == "through-newtype":
+                W, T, wrapv = mod.NItems, mod.Plain, lambda v: v
+            elif how == "through-alias":
+                W, T, wrapv = mod.AItems, mod.Plain, lambda v: v
+            elif how == "field":
+                W, T, wrapv = mod.HoldW, mod.HoldT, lambda v: {"f": v}
+            elif how == "list-member":
+                W, T, wrapv = list[mod.Items], list[mod.Plain], lambda v: [v]
+            else:
+                W, T, wrapv = mod.Items, mod.Plain, lambda v: v
+            for x in pool:
+                w = wrapv(shape(x))
+                sh.eval(("twin-text", text, how, leaf, repr(w)))
+                a, b = outcome(typelib.unmarshal, T, w), outcome(typelib.unmarshal, W, w)
+                sh.count("twin_text_pairs_compared")
+                if a[0] == "skip" or b[0] == "skip":
+                    continue
+                ca = canon(vars(a[1]) if how == "field" and a[0] == "ok" else a[1], strict=True) if a[0] == "ok" else a
+                cb = canon(vars(b[1]) if how == "field" and b[0] == "ok" else b[1], strict=True) if b[0] == "ok" else b
+                if a[0] != b[0] or ca != cb:
+                    sh.violation("same-text-alias-resolved-elsewhere", alias_text=text, how=how, module_leaf=leaf, modules_in_order=[m[1] for m in order],
+                                 input=short(w, 200), plain=short(a, 200), wrapped=short(b, 200), module_src=src)
+                    return
+                if a[0] == "ok" and how != "field":
+                    ma, mb = outcome(lambda v: typelib.marshal(v, t=T), a[1]), outcome(lambda v: typelib.marshal(v, t=W), a[1])
+                    if ma[0] != mb[0] or (ma[0] == "ok" and canon(ma[1], strict=True) != canon(mb[1], strict=True)):
+                        sh.violation("same-text-alias-resolved-elsewhere", alias_text=text, how=how, module_leaf=leaf, side="marshal",
+                                     modules_in_order=[m[1] for m in order], input=short(a[1], 200), plain=short(ma, 200), wrapped=short(mb, 200), module_src=src)
+                        return
+    finally:
+        for mod, _, _ in mods:
+            sys.modules.pop(mod.__name__, None)
+
+
 def run_case(sh, i, plan):
     rng = case_rng(sh, i)
     clear_typelib_caches(also_typing=True)
     if rng.random() < 0.08:
         return bytes_case(sh, rng)
+    if rng.random() < 0.05:
+        return twin_text_case(sh, rng)
     opts = U.Opts(depth=rng.choice([0, 1, 1, 2]), wrappers=False, recursive=False)
     prog = U.Program(rng)
     gen = U.Gen(prog, rng, opts)
